@@ -2,7 +2,7 @@
 import os, random
 import vlib
 
-ALL_TYPES = ["BOOL", "I8", "I16", "I32", "I64", "DOUBLE", "BINARY", "STRUCT", "LIST", "SET", "MAP"]
+ALL_TYPES = ["BOOL", "I8", "I16", "I32", "I64", "DOUBLE", "BINARY", "STRUCT", "LIST", "SET", "MAP", "ENUM"]
 ALL_IDS = [1, 2, 5, 15, 16, 17, 64, 70, 300, 8192, 32767]   # 64 and 8192: the zig-zag of the id crosses a varint byte boundary
 
 
